@@ -345,6 +345,8 @@ class Engine:
         if k == 'none':
             return z3.BoolVal(False)
         if k in ('bytes', 'list'):
+            if v.t is None:
+                return z3.BoolVal(False)
             return z3.Length(v.t) > 0
         if k == 'dict':
             return z3.Length(T.dict_keys(v)) > 0
@@ -1167,6 +1169,10 @@ class Engine:
         ret_ty = c.extra['dep_ret'](self, bound) if 'dep_ret' in c.extra else c.ret_ty
         res = self.fresh(ret_ty, 'r_' + nm.split('.')[-1]) if ret_ty != NONE else VNONE
         fr_c.ghost['result'] = res
+        if c.extra.get('external_effect'):
+            # the callee hands control to foreign code (fires caller Deferreds ...)
+            from . import heap as H
+            H.external_call(self, 'call of ' + nm)
         for name, e in c.ensures.items():
             self.assume(self.pure_bool(e, fr_c))
         self.B.effects_of_call(self, c, fr_c)
@@ -1229,6 +1235,14 @@ class Engine:
         return self.do_yield(node, fr)
 
     def s_Assign(self, s, fr):
+        if isinstance(s.value, ast.Tuple) and len(s.targets) == 1 and isinstance(s.targets[0], ast.Tuple) \
+                and len(s.targets[0].elts) == len(s.value.elts) \
+                and not any(isinstance(e, ast.Starred) for e in s.value.elts + s.targets[0].elts):
+            # parallel assignment a, b = x, y: evaluate the right-hand sides first, then bind (no tuple is built)
+            vals = [self.eval(e, fr) for e in s.value.elts]
+            for t, v in zip(s.targets[0].elts, vals):
+                self.assign(t, v, fr)
+            return
         v = self.eval(s.value, fr)
         for tgt in s.targets:
             self.assign(tgt, v, fr)
